@@ -50,6 +50,9 @@ def sendUs : Nat := msToUs C6.sendTimeoutMs
 structure Cfg where
   /-- `1 << CHUNK_SIZE_BITS`: `write_chunk` asserts `len < chunkLim` -/
   chunkLim : Nat
+  /-- whether `Connection::send` also refuses payloads the chunk size field cannot express
+  (`buffer.len() >> CHUNK_SIZE_BITS != 0`; 0.6 only — in 0.7 `MAX_PAYLOAD` is below the limit) -/
+  sendChecksLim : Bool
 deriving Repr
 
 /-- `protocol::chunk_header_size` -/
@@ -108,7 +111,7 @@ def PacketContents.size (p : PacketContents) : Nat := chunksSize p.chunks
 
 /-- `PacketContents::can_fit_chunk` -/
 def PacketContents.canFit (p : PacketContents) (len : Nat) (vital : Bool) : Bool :=
-  decide (p.size + chunkHeaderSize vital + len ≤ maxPayload)
+  decide (p.numChunks < maxNumChunks) && decide (p.size + chunkHeaderSize vital + len ≤ maxPayload)
 
 /-- `PacketContents::write_chunk`: `protocol::write_chunk(..).unwrap(); num_chunks += 1` -/
 def PacketContents.writeChunk (cfg : Cfg) (p : PacketContents) (data : Bytes) (vital : Option (Nat × Bool)) :
@@ -188,7 +191,7 @@ deriving Repr, DecidableEq
 /-- `Connection::send`, online part -/
 def Online.send (cfg : Cfg) (now : Nat) (o : Online) (data : Bytes) (vital : Bool) :
     Except Fail (Online × SendRes × List Flushed) :=
-  if data.length > maxPayload then .ok (o, .tooLongData, [])
+  if data.length > maxPayload || (cfg.sendChecksLim && data.length ≥ cfg.chunkLim) then .ok (o, .tooLongData, [])
   else
     let (o1, fl) := if !o.packet.canFit data.length vital then o.flush else (o, [])
     match o1.queue cfg now data vital with
